@@ -52,6 +52,10 @@ def configs(tier):
     for n in range(1, min(N, 5) + 1):
         for nreq in range(0, 4):
             out.append({'kind': 'sic', 'n': n, 'nreq': nreq, 'dtype': DTYPES[(n + nreq) % 4]})
+    # a long request over a sparse id alphabet (NumPy's sort-based membership test), two symbolic spikes
+    out.append({'kind': 'sic', 'n': 2, 'nreq': 1, 'dtype': 'int64',
+                'fixed_sc': [1000 * (i // 2) for i in range(40)],
+                'fixed_req': [1000 * k for k in range(0, 20, 2)] + [500 + 1000 * k for k in range(10)]})
     for n in range(0, min(N, 5) + 1):
         out.append({'kind': 'unique', 'n': n, 'V': V, 'dtype': DTYPES[n % 4]})
     for nl in range(1, 5):
@@ -128,6 +132,11 @@ def run_config(cfg, e):
             req = [e.int('r%d' % i, 0) for i in range(nreq)]
             for r in req:
                 e.prefer.append(r <= 9)
+            if cfg.get('fixed_sc'):
+                xs = xs + list(cfg['fixed_sc'])
+                sc = snp.ndarray(snp._fromlist(list(xs), (len(xs),)), dt)
+                req = req + list(cfg['fixed_req'])
+                n = len(xs)
             e.case_builder = lambda ev: {'kind': kind, 'sc': ev(xs), 'dtype': dt, 'req': ev(req)}
             try:
                 out = arr._spikes_in_clusters(sc, list(req))
